@@ -36,6 +36,10 @@ pub enum Src {
   /// d in units of 100 microseconds
   Timer { d: u32 },
   TimerAt { off: i32 },
+  /// timer / timer_at due `far_base(base)` + extra_ms after subscription /
+  /// construction (2^32 us, 2^32 ms, 2^32 s, 2^64 ns: where a truncating
+  /// conversion would wrap; the last one is never due in any run)
+  TimerFar { base: u8, extra_ms: u32, at: bool },
   Future { gate: Gate },
   FutureResult { gate: Gate, err: bool },
   Stream { gates: Vec<Gate> },
@@ -192,6 +196,7 @@ impl Scenario for C08 {
       0 | 1 => Src::Interval { p, take: rng.range(1, 6) },
       2 | 3 => Src::IntervalAt { off: *rng.pick(&[-5, 0, 1, 2, 5, 12, 30, 30, 1000, 2500]), p, take: rng.range(1, 5) },
       4 => Src::Timer { d: *rng.pick(&[0, 3, 10, 30, 100, 100, 1000, 1200]) },
+      5 if rng.chance(1, 6) => Src::TimerFar { base: rng.range(1, 4) as u8, extra_ms: *rng.pick(&[0u32, 0, 1, 40, 1000]), at: rng.chance(1, 2) },
       5 => Src::TimerAt { off: *rng.pick(&[-5, 0, 1, 3, 10, 10, 1000, 2001]) },
       6 => Src::Future { gate: gate(rng) },
       7 => Src::FutureResult { gate: gate(rng), err: rng.chance(1, 2) },
@@ -259,6 +264,16 @@ impl Scenario for C08 {
           Src::TimerAt { off } => {
             let o = observable::timer_at(Val::I(7), at_of(off).0, sched);
             Box::new(move || Box::new(o.actual_subscribe(p)))
+          }
+          Src::TimerFar { base, extra_ms, at } => {
+            let far = far_base(base) + Duration::from_millis(extra_ms as u64);
+            if at {
+              let o = observable::timer_at(Val::I(7), at_of(0).0 + far, sched);
+              Box::new(move || Box::new(o.actual_subscribe(p)))
+            } else {
+              let o = observable::timer(Val::I(7), far, sched);
+              Box::new(move || Box::new(o.actual_subscribe(p)))
+            }
           }
           Src::Future { gate } => {
             let o = observable::from_future(OkFut(ScriptFut(mk_stream(vec![gate], None))), sched);
@@ -330,7 +345,7 @@ impl Scenario for C08 {
           }
         }
       }
-      w.quiesce(2000, 3_600_000 * MS);
+      w.quiesce(2000, w.now().saturating_add(3_600_000 * MS));
       trace.push_str("prompt ");
     } else {
       for a in &case.acts {
@@ -368,7 +383,7 @@ impl Scenario for C08 {
       }
       // quiescence: faults stop; everything that is pending gets released and run
       for _ in 0..40 {
-        w.quiesce(2000, 3_600_000 * MS);
+        w.quiesce(2000, w.now().saturating_add(3_600_000 * MS));
         if log.terminated() {
           break;
         }
@@ -446,6 +461,18 @@ impl Scenario for C08 {
           }
         }
       }
+      Src::TimerFar { base, extra_ms, at } => {
+        let far = sim_ns(far_base(*base) + Duration::from_millis(*extra_ms as u64));
+        let due = (if *at { t_build } else { t_sub }).checked_add(far).unwrap_or(NEVER);
+        if let Some(r) = recs.first() {
+          if r.t < due {
+            bad("c08.early", format!("a timer due {}ms (2^{} + {}ms) after its {} delivered [{}], the first at {}ms", far as f64 / 1e6, ["", "32 us", "32 ms", "32 s", "64 ns"][(*base).min(4) as usize], extra_ms, if *at { "construction" } else { "subscription" }, fmt_trace(&evs), r.t as f64 / 1e6));
+          }
+        }
+        if !evs.is_empty() && evs != vec![Ev::Next(Val::I(7)), Ev::Complete] {
+          bad("c08.values", format!("timer delivered [{}]", fmt_trace(&evs)));
+        }
+      }
       Src::Future { .. } => {
         if evs != vec![Ev::Next(Val::I(0)), Ev::Complete] {
           bad("c08.values", format!("from_future delivered [{}]", fmt_trace(&evs)));
@@ -514,7 +541,7 @@ pub fn check_def() -> PropertyCheck {
     id: "C08",
     scenarios: vec![Box::new(C08)],
     runs: (300_000, 30_000_000),
-    rule: "case = source (interval, interval_at, timer, timer_at with periods/delays {0,1,3,10}ms and instants before/at/after now; from_future(_result), from_stream(_result) over scripted futures/streams: ready, pending-k-polls, pending-until-released, error at i) x local|shared scheduler x either a prompt executor (exact-time oracle) or a script of run-task-#k / advance / jump / release / spurious-poll (lower-bound oracle) followed by quiescence; non-trivial = scripted clock or spurious poll or a jump over >=2 deadlines",
+    rule: "case = source (interval, interval_at, timer, timer_at with periods/delays {0,1,3,10}ms and instants before/at/after now, and timers due 2^32 us / 2^32 ms / 2^32 s / 2^64 ns ahead (where a truncating conversion would wrap); from_future(_result), from_stream(_result) over scripted futures/streams: ready, pending-k-polls, pending-until-released, error at i) x local|shared scheduler x either a prompt executor (exact-time oracle) or a script of run-task-#k / advance / jump / release / spurious-poll (lower-bound oracle) followed by quiescence; non-trivial = scripted clock or spurious poll or a jump over >=2 deadlines",
     assumptions: vec!["timer model: deadline fixed at creation, never early (as futures-time/async-io)"],
   }
 }
